@@ -47,7 +47,7 @@ PROPS = {
         "trusted_base": ["model: lean/CliUtils/Model/IdStr.lean"],
     },
     "C06": {
-        "domains": ["wait"],
+        "domains": ["wait", "runnercache"],
         "level_text": ("Machine-checked Lean 4 theorems about the wait-task state machine for ALL finite interleaved sequences of status updates "
                        "(any status, generation, UID, missing resource), deadline and cancellation: a Successful event is emitted only on an "
                        "observation that satisfies the phase condition (Current, generation >= applied, UID unchanged / NotFound or replaced UID); "
@@ -258,7 +258,7 @@ PROPS = {
                        "unions, filters, scripts, `$` as a Set target, negative/non-canonical index texts after a wildcard (ajson resolves them "
                        "against the first array only), member names with control characters inside expressions, annotation YAML parsing."),
         "technique": "Lean 4 proof (induction over paths / strings, case analysis of Mutate) + differential correspondence against the real Go code",
-        "domains": ["jsonpath", "mutate"],
+        "domains": ["jsonpath", "mutate", "runnercache"],
         "rule": ("jsonpath: one fixed tree x every path of length <= 2 (quick) / <= 3 (thorough) over a 15-step alphabet x 3 values "
                  "(exhaustive), plus random trees (depth <= 4: nested maps/lists, number-/bool-/null-/YAML-looking strings, ints up to "
                  "+-2^63 and uint64, floats 1e21/1e-7/5e-324/2^63/2^64, unicode incl. U+0085/U+2028/BOM, empty containers, odd keys) x "
@@ -576,3 +576,11 @@ PROPS["C04"]["level_text"] += (
     " CRD phases (Props/C04S.lean mapper_reset_iff, no_reset_otherwise, for every phase and operation sequence): the wait task resets the "
     "RESTMapper exactly once iff the phase has ended and contains a CRD that was not skipped (by the actuation table the phase started with), "
     "never while it runs and never otherwise — tied to WaitTask.updateRESTMapper by counting Reset() calls in domain wait.")
+
+for _p in ("C18", "C06"):
+    PROPS[_p]["rule"] += (
+        " runnercache: the real TaskStatusRunner.Run with one task held open while a scripted watcher feeds 0-6 status events for 1-3 objects "
+        "(any status, message, with / without object body, generation, UID, and a content field that is neither status nor generation; half of the "
+        "events repeat an earlier one with only that content field changed): afterwards the resource cache must hold the LAST report per object "
+        "(status, message, and the object body with its content), the running task must have been told of every event for one of its objects, and "
+        "every event is forwarded iff EmitStatusEvents — the cache the wait phases and the apply-time mutator ('source looked up from the reconciled cache') read.")
